@@ -246,7 +246,25 @@ class RetVar(ast.NodeTransformer):
         return node
 
 
-MODULE_TRANSFORMS = {'transpose': TtoTranspose, 'sqrtform': SqrtForm, 'ifinvert': IfInvert,
+class Annotate(ast.NodeTransformer):
+    """type annotations on every parameter and return, an annotated first assignment, and a
+    leading `assert` in every function: no behaviour, only syntax the rules must look through"""
+    def visit_FunctionDef(self, node):
+        self.generic_visit(node)
+        for a in node.args.posonlyargs + node.args.args + node.args.kwonlyargs:
+            if a.arg not in ('self', 'cls') and a.annotation is None:
+                a.annotation = ast.Name('object', ast.Load())
+        if node.returns is None and node.name != '__init__':
+            node.returns = ast.Name('object', ast.Load())
+        k = 1 if node.body and isinstance(node.body[0], ast.Expr) and \
+            isinstance(node.body[0].value, ast.Constant) and \
+            isinstance(node.body[0].value.value, str) else 0
+        if not any(d for d in node.decorator_list):
+            node.body.insert(k, ast.Assert(test=ast.Constant(True), msg=None))
+        return node
+
+
+MODULE_TRANSFORMS = {'annotate': Annotate, 'transpose': TtoTranspose, 'sqrtform': SqrtForm, 'ifinvert': IfInvert,
                      'commute': Commute, 'extract': ExtractTemp, 'inline': InlineTemp,
                      'dotform': DotForm, 'retvar': RetVar}
 
